@@ -2534,6 +2534,14 @@ def c11(tier):
         for endop in (("Finish",) if tier == "quick" else ("Finish", "Drop")):
             progs.append(("first-%s-%s" % (nm_, endop.lower()), [], {"op": "New"}, ops_ + second + [{"op": endop}]))
     progs.append(("first-rawcopy", [{"op": "Load", "hex": fb.hex()}], {"op": "New"}, [{"op": "RawCopy", "arch": 0, "idx": 1, "rename": None}] + second + [{"op": "Finish"}]))
+    # an encrypted entry (its body leaves the cipher's buffer only when the entry is closed) closed by finish(), by a directory, by a
+    # symlink, by drop - and the calls a caller may still make after that close failed: finish again, a short write, another entry
+    enc_e = [{"op": "StartFile", "name": "secret", "method": 0, "enc": "pw"}, {"op": "Write", "data": "an encrypted entry"}]
+    progs.append(("enc-closed-by-finish", [], {"op": "New"}, enc_e + [{"op": "Finish"}, {"op": "Finish"}]))
+    progs.append(("enc-closed-by-dir", [], {"op": "New"}, enc_e + [{"op": "AddDir", "name": "d", "method": 0}, {"op": "Write", "data": "x"}, {"op": "Finish"}]))
+    progs.append(("enc-closed-by-symlink", [], {"op": "New"}, enc_e + [{"op": "AddSymlink", "name": "l", "target": "t", "method": 0}, {"op": "Flush"}, {"op": "Finish"}]))
+    progs.append(("enc-closed-by-drop", [], {"op": "New"}, [{"op": "StartFile", "name": "plain", "method": 8}, {"op": "Write", "data": "plain"}] + enc_e + [{"op": "Drop"}]))
+    progs.append(("enc-then-short", [], {"op": "New"}, enc_e + [{"op": "StartFile", "name": "next", "method": 0}, {"op": "Write", "data": "tiny"}, {"op": "Finish"}]))
     nrand = 6 if tier == "quick" else 40
     for i in range(nrand):
         s = g.valid_archive("x", nmax=5, enc_ok=True, end=rnd.choice(["Finish", "Drop"]))
